@@ -38,18 +38,18 @@ type Value struct {
 	E []*Value // L/T: elements; M: k0 v0 k1 v1 …; R: ALL fields of the struct in Schema order
 }
 
-func Nil() *Value                { return &Value{K: KNil} }
-func Bool(b bool) *Value         { return &Value{K: KBool, B: b} }
-func Int(i int64) *Value         { return &Value{K: KInt, I: i} }
-func Double(bits uint64) *Value  { return &Value{K: KDouble, D: bits} }
-func Bytes(x []byte) *Value      { return &Value{K: KBytes, X: append([]byte{}, x...)} }
-func Str(s string) *Value        { return &Value{K: KBytes, X: []byte(s)} }
-func List(e ...*Value) *Value    { return &Value{K: KList, E: e} }
-func Set(e ...*Value) *Value     { return &Value{K: KSet, E: e} }
-func Map(kv ...*Value) *Value    { return &Value{K: KMap, E: kv} }
-func Record(f ...*Value) *Value  { return &Value{K: KRecord, E: f} }
-func (v *Value) IsNil() bool     { return v == nil || v.K == KNil }
-func (v *Value) NPairs() int     { return len(v.E) / 2 }
+func Nil() *Value                 { return &Value{K: KNil} }
+func Bool(b bool) *Value          { return &Value{K: KBool, B: b} }
+func Int(i int64) *Value          { return &Value{K: KInt, I: i} }
+func Double(bits uint64) *Value   { return &Value{K: KDouble, D: bits} }
+func Bytes(x []byte) *Value       { return &Value{K: KBytes, X: append([]byte{}, x...)} }
+func Str(s string) *Value         { return &Value{K: KBytes, X: []byte(s)} }
+func List(e ...*Value) *Value     { return &Value{K: KList, E: e} }
+func Set(e ...*Value) *Value      { return &Value{K: KSet, E: e} }
+func Map(kv ...*Value) *Value     { return &Value{K: KMap, E: kv} }
+func Record(f ...*Value) *Value   { return &Value{K: KRecord, E: f} }
+func (v *Value) IsNil() bool      { return v == nil || v.K == KNil }
+func (v *Value) NPairs() int      { return len(v.E) / 2 }
 func (v *Value) Key(i int) *Value { return v.E[2*i] }
 func (v *Value) Val(i int) *Value { return v.E[2*i+1] }
 
